@@ -1,0 +1,41 @@
+//! Verification hook H2 (only compiled with `--cfg kolibrie_verif`).
+//!
+//! `compute_repairs` iterates a `HashSet` whose order differs from run to run. This seam lets
+//! a harness decide that order, so that "the result does not vary from run to run" can be
+//! checked by enumerating orders instead of re-running and hoping.
+use shared::triple::Triple;
+use std::cell::RefCell;
+use std::collections::HashSet;
+
+thread_local! {
+    static ORDER_ORACLE: RefCell<Option<Box<dyn FnMut(&mut Vec<Triple>)>>> = RefCell::new(None);
+}
+
+/// Install (or remove) the oracle that reorders the candidate-removal loop of the calling thread.
+pub fn set_order_oracle(oracle: Option<Box<dyn FnMut(&mut Vec<Triple>)>>) {
+    ORDER_ORACLE.with(|o| *o.borrow_mut() = oracle);
+}
+
+pub struct Ordered<'a> {
+    set: &'a HashSet<Triple>,
+    items: Vec<Triple>,
+}
+
+impl<'a> Ordered<'a> {
+    pub fn new(set: &'a HashSet<Triple>) -> Self {
+        let mut items: Vec<Triple> = set.iter().cloned().collect();
+        ORDER_ORACLE.with(|o| {
+            if let Some(f) = o.borrow_mut().as_mut() {
+                f(&mut items);
+            }
+        });
+        Ordered { set, items }
+    }
+    pub fn iter(&self) -> std::slice::Iter<'_, Triple> {
+        self.items.iter()
+    }
+    #[allow(clippy::should_implement_trait)]
+    pub fn clone(&self) -> HashSet<Triple> {
+        self.set.clone()
+    }
+}
